@@ -262,4 +262,70 @@ SplEncloses(x, r, e) ==
   LET lp == Longest(x, r) IN
   \A i \in SplClean(x, r, e) :
      Abs(At(e.eq, i) - (At(e.hi, i) - At(e.expect, i)) * 1048576) <= (lp[i] + 1) * (e.tolq + 4)
+-----------------------------------------------------------------------------
+(* C15 - the basin graph tree is a minimum spanning tree over the lowest     *)
+(* passes.  b: [nb, lab, outlets, edges (<<l0, l1, p0, p1, w>>, p = -1 for   *)
+(* the virtual root edges), tree (edge indices, 0-based), z (ranks)]         *)
+BgBasins(b) == 0..(b.nb - 1)
+BgInner(x, b, A) == At(b.outlets, A) \notin x.bl
+BgNodesOf(x, b, A) == {i \in NodesOf(x) : At(b.lab, i) = A}
+\* every neighbouring pair of unmasked nodes lying in two different basins, with the higher of
+\* the two elevations: <<basin, basin, weight>> (evaluated once per observation)
+BgCross(x, b) == TLCEval(UNION {{<<At(b.lab, i), At(b.lab, j), Max2(At(b.z, i), At(b.z, j))>> :
+                                   j \in {j \in UNb(x, i) : At(b.lab, j) # At(b.lab, i)}} :
+                                i \in {i \in NodesOf(x) : ~Msk(x, i)}})
+\* lowest pass between two adjacent basins
+BgPassWIn(cross, A, B) == SetMin({t[3] : t \in {t \in cross : t[1] = A /\ t[2] = B}})
+BgExpectedLinksIn(x, b, cross) == {{t[1], t[2]} : t \in {t \in cross : BgInner(x, b, t[1]) \/ BgInner(x, b, t[2])}}
+BgReal(b) == {k \in DOMAIN b.edges : b.edges[k][3] # 0 - 1}
+BgVirtual(b) == {k \in DOMAIN b.edges : b.edges[k][3] = 0 - 1}
+BgLabelsOK(x, b) == /\ Len(b.outlets) = b.nb
+                    /\ \A A \in BgBasins(b) : At(b.lab, At(b.outlets, A)) = A
+BgEdgesOK(x, b) ==
+  LET cross == BgCross(x, b)
+      links == BgExpectedLinksIn(x, b, cross)
+  IN /\ \A k \in BgReal(b) : LET e == b.edges[k] IN
+          /\ {e[1], e[2]} \in links
+          /\ At(b.lab, e[3]) = e[1] /\ At(b.lab, e[4]) = e[2] /\ e[4] \in UNb(x, e[3])
+          /\ e[5] = Max2(At(b.z, e[3]), At(b.z, e[4]))
+          /\ e[5] = BgPassWIn(cross, e[1], e[2])
+     /\ \A S \in links : Cardinality({k \in BgReal(b) : {b.edges[k][1], b.edges[k][2]} = S}) = 1
+BgVirtualOK(x, b) ==
+  LET outer == {A \in BgBasins(b) : ~BgInner(x, b, A)} IN
+  /\ \A k \in BgVirtual(b) : b.edges[k][1] \in outer /\ b.edges[k][2] \in outer /\ b.edges[k][1] # b.edges[k][2]
+  /\ Cardinality(BgVirtual(b)) = (IF outer = {} THEN 0 ELSE Cardinality(outer) - 1)
+  /\ \A k, m \in BgVirtual(b) : k # m => {b.edges[k][1], b.edges[k][2]} # {b.edges[m][1], b.edges[m][2]}
+  \* all virtual edges share one end (the root)
+  /\ BgVirtual(b) # {} => \E rt \in outer : \A k \in BgVirtual(b) : rt \in {b.edges[k][1], b.edges[k][2]}
+\* connectivity over a set of edge indices
+BgLink(b, k) == {b.edges[k][1], b.edges[k][2]}
+RECURSIVE BgReach(_, _, _)
+BgReach(b, K, S) == LET T == S \cup UNION {BgLink(b, k) : k \in {k \in K : BgLink(b, k) \cap S # {}}} IN
+                    IF T = S THEN S ELSE BgReach(b, K, T)
+BgComponents(b, K) == {BgReach(b, K, {A}) : A \in BgBasins(b)}
+BgTreeIdx(b) == {At(b.tree, k) + 1 : k \in Idx0(b.tree)}
+BgW(b, k) == b.edges[k][5]
+BgTreeOK(x, b) ==
+  LET T == BgTreeIdx(b)
+      all == DOMAIN b.edges
+  IN /\ T \subseteq all /\ Cardinality(T) = Len(b.tree)
+     \* spanning forest of the edge graph: same components, as few edges as possible (so acyclic)
+     /\ BgComponents(b, T) = BgComponents(b, all)
+     /\ Cardinality(T) = b.nb - Cardinality(BgComponents(b, all))
+BgMinimal(x, b) ==
+  LET T == BgTreeIdx(b) IN
+  \* cycle property: the ends of every non-tree edge are joined by tree edges that are not heavier
+  \A k \in (DOMAIN b.edges) \ T :
+     b.edges[k][2] \in BgReach(b, {t \in T : BgW(b, t) <= BgW(b, k)}, {b.edges[k][1]})
+BgOriented(x, b) ==
+  LET T == BgTreeIdx(b)
+      indeg(A) == Cardinality({t \in T : b.edges[t][2] = A})
+      roots == {A \in BgBasins(b) : indeg(A) = 0}
+  IN /\ \A A \in BgBasins(b) : indeg(A) <= 1
+     /\ Cardinality(roots) = Cardinality(BgComponents(b, T))
+     \* the component that holds the base-level (outer) basins is rooted at one of them
+     /\ \A A \in roots : (\E O \in BgReach(b, T, {A}) : ~BgInner(x, b, O)) => ~BgInner(x, b, A)
+BgSortedWeights(b) == LET T == BgTreeIdx(b)
+                          ws == {BgW(b, t) : t \in T}
+                      IN [w \in ws |-> Cardinality({t \in T : BgW(b, t) = w})]
 =============================================================================
